@@ -324,6 +324,23 @@ int main()
         printf("bad-op");
       delete a;
     }
+    else if(hxIs(l, "escm", 2) && (strcmp(l.tok[1], "0") == 0 || strcmp(l.tok[1], "1") == 0) && isHexTok(l.tok[2]))
+    {
+      // escapeString called directly: result bytes and the capacity of the String it returns
+      // (its own buffer management: initial slack, reserve at every escape, rounding)
+      size_t len = 0;
+      unsigned char* d = hxBytes(l.tok[2], len);
+      if(hasNul(d, len))
+        printf("bad-op");
+      else
+      {
+        String v((const char*)d, len);
+        String r = Xml::Private::escapeString(v, l.tok[1][0] == '1');
+        printf("mem %lu ", (unsigned long)r.capacity());
+        hxPutHex((const char*)r, r.length());
+      }
+      free(d);
+    }
     else if(hxIs(l, "deep", 2))
     {
       // copies share their Variant payloads: a write through the copy (mutable toElement() clones a
